@@ -5,11 +5,14 @@ from harness.run import Result
 from harness.common import struct_hash
 
 ID = "C02"
-LEAN_MODULES = ["Pypika.Props.C02", "Pypika.Props.C02Bridge"]
+LEAN_MODULES = ["Pypika.Props.C02", "Pypika.Props.C02Bridge", "Pypika.Props.C02Bool"]
 THEOREMS = [
     "Pypika.C02.render_sound",
     "Pypika.C02.render_emb",            # the model's `render` on arithmetic terms is the image of renderTok
     "Pypika.C02.render_sound_model",    # hence render_sound holds of `render`, the function run against /repo
+    "Pypika.C02.render_cmp", "Pypika.C02.cmp_operands_sound",      # comparison level: whole arithmetic operands, no chaining
+    "Pypika.C02.renderB_sound",         # boolean level: NOT / one-operator chains / parentheses, any depth
+    "Pypika.C02.render_embB", "Pypika.C02.render_sound_modelB",    # the model's render on criteria = image of renderB
 ]
 AGREE = ["Pypika.Agree.left_parens", "Pypika.Agree.right_parens", "Pypika.Agree.needs_brackets",
          "Pypika.Agree.arith_text", "Pypika.Agree.bool_text"]
